@@ -79,6 +79,8 @@ def mutations(rnd, fs, pats, kmax=3, kinds=("alter", "remove", "add", "touch", "
                 new = old + "x"
             fs.files[p] = new
             ops.append({"op": "write", "path": p, "data": gen.enc(new)})
+            if mode == "flip" and len(new.encode("utf-8", "surrogatepass")) == len(old.encode("utf-8", "surrogatepass")) and rnd.random() < 0.6:
+                ops[-1]["mtime"] = 1760000000  # bit rot: same length, the modification time of the sealed file
             if not hidden(p, pats):
                 truth["altered"].add(p)
         elif k == "remove" and files:
